@@ -36,14 +36,62 @@ NAMES = ['a', 'b']
 ALPHABET = [('START',), ('COMMIT',), ('ROLLBACK',)] + [(op, n) for op in ('DECLARE', 'RELEASE', 'ROLLBACK_TO') for n in NAMES] + \
            [('ALIAS',), ('SCHEMA',), ('CONFIG',), ('SYNC', 'last'), ('SYNC', 'first')]
 
-def run_history(hist, rnd):
+def _compiler_driver():
+    """the real compiler._compile_ql_transaction on a minimal compile context (what Compiler._compile_dispatch_ql hands it)"""
+    import types
+    from edb.edgeql import ast as qlast, qltypes
+    from edb.server.compiler import compiler as C
+    class _Iso:
+        def to_qltypes(self): return qltypes.TransactionIsolationLevel.SERIALIZABLE
+    class _Acc:
+        def to_qltypes(self): return qltypes.TransactionAccessMode.READ_WRITE
+    C._get_config_val = lambda ctx, name: _Iso() if 'isolation' in name else _Acc()       # (session config lookup needs the std schema)
+    C.ddl.produce_feature_used_metrics = lambda compiler_state, schema: None                 # (metrics need the std schema as well)
+    mk = {'START': lambda n: qlast.StartTransaction(), 'COMMIT': lambda n: qlast.CommitTransaction(), 'ROLLBACK': lambda n: qlast.RollbackTransaction(),
+          'DECLARE': lambda n: qlast.DeclareSavepoint(name=n), 'RELEASE': lambda n: qlast.ReleaseSavepoint(name=n), 'ROLLBACK_TO': lambda n: qlast.RollbackToSavepoint(name=n)}
+    def run(cs, op):
+        ctx = types.SimpleNamespace(state=cs, expect_rollback=False, compiler_state=None, _assert_not_in_migration_block=lambda ql: None)
+        return C._compile_ql_transaction(ctx, mk[op[0]](op[1] if len(op) > 1 else None))
+    return run
+
+_DRIVER = []
+
+def run_history(hist, rnd, via_compiler=False):
+    if via_compiler and not _DRIVER: _DRIVER.append(_compiler_driver())
     cs, base_schema = fresh_state()
     m = Model(observe(cs))
     counter = [0]
     for step, op in enumerate(hist):
         tx = cs.current_tx(); kind = op[0]; exp_reject = False; got_reject = False; ret = None
         try:
-            if kind == 'START':
+            unit = None
+            if via_compiler and kind in ('START', 'COMMIT', 'ROLLBACK', 'DECLARE', 'RELEASE', 'ROLLBACK_TO'):
+                # the statement goes through the real compiler entry point; the reference model is updated below and the
+                # unit the compiler reports to the server (aliases, schema, savepoint name / id) is compared with it
+                idx = [i for i, s_ in enumerate(m.sps) if len(op) > 1 and s_[1] == op[1]]
+                exp_reject = {'START': m.in_tx, 'COMMIT': not m.in_tx, 'ROLLBACK': False, 'DECLARE': not m.in_tx,
+                              'RELEASE': (not m.in_tx) or not idx, 'ROLLBACK_TO': (not m.in_tx) or not idx}[kind]
+                schema_changed = m.cur['schema'] is not m.base['schema']
+                unit = _DRIVER[0](cs, op)
+                if exp_reject: pass
+                elif kind == 'START': m.in_tx = True
+                elif kind == 'COMMIT':
+                    m.base = dict(m.cur); m.in_tx = False; m.sps = []
+                    if unit.modaliases is not m.cur['aliases']: return dict(step=step, op=op, problem='COMMIT reports aliases that are not the committed ones')
+                    if (unit.user_schema is not None) != schema_changed or (schema_changed and unit.user_schema is not m.cur['schema']):
+                        return dict(step=step, op=op, problem='COMMIT reports the wrong user schema')
+                elif kind == 'ROLLBACK':
+                    m.cur = dict(m.base); m.in_tx = False; m.sps = []
+                    if unit.modaliases is not m.cur['aliases']: return dict(step=step, op=op, problem='ROLLBACK reports aliases that are not those at transaction start')
+                elif kind == 'DECLARE':
+                    if unit.sp_name != op[1] or unit.sp_id is None: return dict(step=step, op=op, problem='DECLARE SAVEPOINT reports the wrong savepoint name / id')
+                    m.sps.append((unit.sp_id, op[1], dict(m.cur)))
+                elif kind == 'RELEASE': m.sps = m.sps[:idx[-1]]
+                elif kind == 'ROLLBACK_TO':
+                    m.cur = dict(m.sps[idx[-1]][2]); m.sps = m.sps[:idx[-1] + 1]
+                    if unit.modaliases is not m.cur['aliases'] or unit.sp_name != op[1]:
+                        return dict(step=step, op=op, problem='ROLLBACK TO SAVEPOINT reports aliases / name that are not those of the savepoint (the server applies the reported aliases to the session)')
+            elif kind == 'START':
                 exp_reject = m.in_tx
                 cs.start_tx()
                 if not exp_reject: m.in_tx = True
@@ -99,13 +147,19 @@ def run_history(hist, rnd):
             return dict(step=step, op=op, problem='in-transaction flag differs')
     return None
 
+DRIVE_COMPILER = True
+
 def main():
     seed, exh, n_random, max_len, out = int(sys.argv[1]), int(sys.argv[2]), int(sys.argv[3]), int(sys.argv[4]), sys.argv[5]
     rnd = random.Random(seed); res = dict(histories=0, failure=None, exhaustive_len=exh)
     def go(h):
         res['histories'] += 1
         f = run_history(h, rnd)
-        if f: res['failure'] = dict(history=[list(x) for x in h], **f)
+        if f: res['failure'] = dict(history=[list(x) for x in h], **f); return f
+        if DRIVE_COMPILER:
+            res['histories'] += 1
+            f = run_history(h, rnd, via_compiler=True)
+            if f: res['failure'] = dict(history=[list(x) for x in h], via='compiler._compile_ql_transaction', **f)
         return f
     done = False
     for L in range(1, exh + 1):
